@@ -15,7 +15,10 @@
 // Further dimensions: branch.go (context-copying plugins in front of option
 // forwarders), replace.go (several responses set on one context one after the
 // other), gen.go genClientAdditional (client additional sections with 0..4
-// records: OPTs in any position mixed with other RRs).
+// records: OPTs in any position mixed with other RRs), conftext.go (the
+// configuration TEXT of forward_edns0opt / ecs_handler / ecs in every spelling
+// of a number, boolean and address through the real args paths: rule text,
+// plugin args decoder, YAML document read by coremain).
 package main
 
 import (
@@ -206,11 +209,12 @@ func runChain(desc *chainDesc) {
 func main() {
 	rep = evid.New("C15", "exploration")
 	caselog = evid.OpenCaseLog()
-	rep.SetRule("one case = one client query pushed through EntryHandler.Handle into a generated chain (random order/subset of forward_edns0opt{codes}, cache, lazy cache, has_resp->accept, ttl{fix|min-max}, ecs{preset}, ecs_handler{forward,send,preset,masks}, [qtype 16]->reject, terminal{guard|always}|real forward->loopback UDP, post-terminal ttl/forward_edns0opt/[qtype 28]->drop_resp; scripted upstream outcomes incl. error / no response / silence until the client context is cancelled, so the handler-made SERVFAIL and REFUSED replies are judged too) or of the branch family (prefer_ipv4|prefer_ipv6, fallback{always_standby on/off} over primary/secondary sub-sequences, lazy cache - each in front of forward_edns0opt / ecs_handler forward and a per-branch upstream whose reply names its origin (exchange, case, branch, qtype) in a TXT record and in every EDNS option, so the relayed reply is read off the client reply and every option in it is attributed; allowed-down = options of the relayed exchange of this very case), built through coremain's plugin registry + sequence.NewSequence rule text; client OPT generator: absent / sizes 0..65535 / DO / version 0-255 / Z bits / ext-rcode bits / option lists (ECS v4+v6, cookie, padding, NSID, EDE, keepalive, unknown codes, duplicates, empty); upstream reply generator: no OPT / OPT anywhere in the additional section with options, ext-rcode, version, Z / two OPTs (out-of-quantifier class: only cache-store, TTL-field and upstream-side assertions are judged for it); in a quarter of the chains a harness plugin appends an OPT with a distinctive TTL field in place to R().Extra right after the terminal (same in-scope assertions); every tenth case of the generated chains replaces the client's additional section by a generated record list (0..4 records, each an OPT with its own size/DO/options or an A/TXT/unknown-type RR, any order): all OPTs of the list count as the client's EDNS0 for the upstream-side assertions, the reply-side assertions apply when the list holds at most one OPT (several OPTs: out of the quantifier, only what an upstream receives is judged); replace family: 2-4 responders run one after the other on ONE context (harness upstreams that always query and reply with origin-tagged options / without OPT / error / no response, black_hole, reject, arbitrary, hosts, drop_resp, a cache around the remaining steps; each optionally behind has_resp / !has_resp / qtype matchers) behind forward_edns0opt [+ ecs_handler forward] and optionally a second forward_edns0opt between two steps, same attribution oracle as the branch family (allowed-down = options of the exchange the reply relays, read off its origin record; a replaced or dropped upstream reply contributes nothing); names are reused inside a chain and the chain sleeps 1.1 s half-way so cache hits, aged hits, lazy hits and truncated replies occur. Non-trivial = a reply was produced and the client or the upstream had an OPT; distinct = chain shape x client OPT class x upstream OPT class x path(miss/hit/refetch/no-upstream) x truncated x transport")
+	rep.SetRule("one case = one client query pushed through EntryHandler.Handle into a generated chain (random order/subset of forward_edns0opt{codes}, cache, lazy cache, has_resp->accept, ttl{fix|min-max}, ecs{preset}, ecs_handler{forward,send,preset,masks}, [qtype 16]->reject, terminal{guard|always}|real forward->loopback UDP, post-terminal ttl/forward_edns0opt/[qtype 28]->drop_resp; scripted upstream outcomes incl. error / no response / silence until the client context is cancelled, so the handler-made SERVFAIL and REFUSED replies are judged too) or of the branch family (prefer_ipv4|prefer_ipv6, fallback{always_standby on/off} over primary/secondary sub-sequences, lazy cache - each in front of forward_edns0opt / ecs_handler forward and a per-branch upstream whose reply names its origin (exchange, case, branch, qtype) in a TXT record and in every EDNS option, so the relayed reply is read off the client reply and every option in it is attributed; allowed-down = options of the relayed exchange of this very case), built through coremain's plugin registry + sequence.NewSequence rule text; client OPT generator: absent / sizes 0..65535 / DO / version 0-255 / Z bits / ext-rcode bits / option lists (ECS v4+v6, cookie, padding, NSID, EDE, keepalive, unknown codes, duplicates, empty); upstream reply generator: no OPT / OPT anywhere in the additional section with options, ext-rcode, version, Z / two OPTs (out-of-quantifier class: only cache-store, TTL-field and upstream-side assertions are judged for it); in a quarter of the chains a harness plugin appends an OPT with a distinctive TTL field in place to R().Extra right after the terminal (same in-scope assertions); every tenth case of the generated chains replaces the client's additional section by a generated record list (0..4 records, each an OPT with its own size/DO/options or an A/TXT/unknown-type RR, any order): all OPTs of the list count as the client's EDNS0 for the upstream-side assertions, the reply-side assertions apply when the list holds at most one OPT (several OPTs: out of the quantifier, only what an upstream receives is judged); replace family: 2-4 responders run one after the other on ONE context (harness upstreams that always query and reply with origin-tagged options / without OPT / error / no response, black_hole, reject, arbitrary, hosts, drop_resp, a cache around the remaining steps; each optionally behind has_resp / !has_resp / qtype matchers) behind forward_edns0opt [+ ecs_handler forward] and optionally a second forward_edns0opt between two steps, same attribution oracle as the branch family (allowed-down = options of the exchange the reply relays, read off its origin record; a replaced or dropped upstream reply contributes nothing); configuration-text family: one configuration = forward_edns0opt code list and/or ecs_handler / ecs arguments written as TEXT generated from (value, spelling) pairs - every code in {ordinary codes, 65535, 65536.., 2^32.., 2^64.., negative} x {plain, zero-padded, +signed, 0x, 0o, 0b, underscore, float, trailing junk, full-width digits} x route {sequence rule text -> QuickSetup, PluginConfig -> plugin args decoder, YAML document (exec as plain / quoted / literal scalar) -> coremain.NewMosdns include path}, alone or in lists (1-9 numbers, duplicates, empty list; blanks / tabs / newlines / commas / semicolons between them), ecs_handler forward / send in 46 spellings of a boolean, mask4 / mask6 in the same spellings of a number, preset / old ecs quick setup in 22 spellings of an address - loaded by mosdns itself; outcome refused-at-load is always fine, a loaded configuration gets 3 queries whose client OPT and upstream OPT carry one option per probe code {codes the text denotes, 8, 10, and every neighbour / 8-16-32-bit wrap / other-base reading of every number written}: each option that crosses must have a code the text denotes by construction (plain decimal reading; prefixed spellings by their prefix; at YAML scalar positions also the YAML 1.1 octal reading), each ECS sent upstream must be the client's (forward denoted true or code 8 denoted) or the one preset / send / masks denote; names are reused inside a chain and the chain sleeps 1.1 s half-way so cache hits, aged hits, lazy hits and truncated replies occur. Non-trivial = a reply was produced and the client or the upstream had an OPT; distinct = chain shape x client OPT class x upstream OPT class x path(miss/hit/refetch/no-upstream) x truncated x transport")
 	rep.Assume("oracle decodes all observed bytes with lib/wire and the dump with compress/gzip + protowire; miekg/dns is used only where mosdns' own servers/forward use it (Unpack of the client query / upstream reply)")
 	rep.Assume("'explicitly forwarded' is derived from the generated chain description: codes named by forward_edns0opt / ecs_handler forward before the terminal (upwards) or anywhere in the chain (downwards); ECS generated by ecs / ecs_handler preset|send is recomputed independently from preset, masks and client address")
 	rep.Assume("replies produced while a surplus OPT sat in R() (two-OPT upstream reply, or the harness $inject plugin) are not judged for OPT count / DO mirror / option sets: query_context documents that R() carries no OPT and pops exactly one; they are judged for: nothing stored in the cache contains an OPT, no OPT TTL field is rewritten by ttl / cache ageing / truncation")
 	rep.Assume("a client query with several OPT records is outside 'exactly one OPT iff the client's query had one': its reply (if any) is not judged; 'the query sent upstream always carries exactly one fresh OPT and none of the client's EDNS options unless forwarded' is judged for it like for any other query (HEAD drops such queries in the entry handler, so no upstream sees them)")
+	rep.Assume("configuration-text family: what a text denotes is fixed by the generator that spelled it (value + spelling), never computed with strconv / yaml; only leaks are verdicts (an option crossing whose code the text does not denote) - refusing a configuration and not forwarding a denoted code are counted, not judged")
 	rep.Assume("DO on the upstream OPT and the UDP size in the reply OPT are not judged (the statement does not fix them); an upstream extended rcode may appear in the reply OPT (it is the rcode, not an option)")
 
 	workers := 32
@@ -220,10 +224,23 @@ func main() {
 	if rep.ReplayFile != "" {
 		var w struct {
 			Chain chainDesc `json:"chain"`
+			Conf  *confDesc `json:"conf"`
 		}
 		if err := rep.LoadReplay(&w); err != nil {
 			fmt.Println("cannot load replay:", err)
 			os.Exit(3)
+		}
+		if w.Conf != nil {
+			// the recorded descriptor holds the configuration text, the route and the
+			// document: it is re-loaded and its cases re-sent as they are
+			dir, err := os.MkdirTemp("", "c15conf-")
+			if err != nil {
+				fmt.Println("cannot create a directory for the configuration document:", err)
+				os.Exit(3)
+			}
+			runConf(w.Conf, dir)
+			_ = os.RemoveAll(dir)
+			rep.Finish()
 		}
 		if w.Chain.Branch != nil {
 			d := genBranchChain(w.Chain.Seed, w.Chain.Idx, w.Chain.NCases)
@@ -291,6 +308,8 @@ func main() {
 	}
 	close(jobs)
 	wg.Wait()
+	// configuration-text family (conftext.go)
+	runConfFamily()
 	if left := leak.WaitNone([]string{"cache.(*Cache).doLazyUpdate"}, nil, 15*time.Second); len(left) > 0 {
 		rep.Inconclusive("%d lazy-update goroutines still running at the end", len(left))
 	}
@@ -310,7 +329,12 @@ func main() {
 		"replace_final:local", "replace_final:cached", "replace_final:upstream-without-opt", "replace_final:upstream-with-options",
 		"replace_final:handler-servfail", "replace_final:handler-refused",
 		"replace_discarded_reply_had_forwardable_options:then-local", "replace_discarded_reply_had_forwardable_options:then-cached",
-		"replace_discarded_reply_had_forwardable_options:then-upstream-without-opt", "replace_discarded_reply_had_forwardable_options:then-upstream-with-options"}
+		"replace_discarded_reply_had_forwardable_options:then-upstream-without-opt", "replace_discarded_reply_had_forwardable_options:then-upstream-with-options",
+		"conf_loaded:rule-text", "conf_loaded:decoded-map", "conf_loaded:yaml-file",
+		"conf_refused_at_load:rule-text", "conf_refused_at_load:decoded-map", "conf_refused_at_load:yaml-file",
+		"conf_loaded_with_number_class:plain", "conf_loaded_with_number_class:zero-padded", "conf_refused_with_number_class:out-of-range", "conf_refused_with_number_class:negative",
+		"conf_up_options_forwarded_as_denoted", "conf_down_options_forwarded_as_denoted", "conf_client_probe_options_terminated", "conf_upstream_probe_options_terminated",
+		"conf_loaded_with_ecs_handler", "conf_loaded_with_ecs", "conf_ecs_generated_as_denoted", "conf_up_ecs_forwarded_as_denoted", "conf_down_ecs_forwarded_as_denoted"}
 	// 12 ecs_handler configurations x 4 client classes x 4 upstream classes = 192 cells
 	rep.Count("ecs_handler_grid_cells_seen", int64(rep.SetLen("ecs_handler_grid")))
 	if rep.SetLen("ecs_handler_grid") < 150 {
